@@ -362,8 +362,10 @@ class Report:
             "wall_s": round(wall, 2),
             "violations": len(self.violations),
         }
-        os.makedirs(EVIDENCE, exist_ok=True)
-        with open(os.path.join(EVIDENCE, "%s.json" % self.prop), "w") as f:
+        # checks that go beyond the listed properties (X..) keep their evidence apart from the per-property files
+        evdir = EVIDENCE if not self.prop.startswith("X") else os.path.join(VERIF, "extras")
+        os.makedirs(evdir, exist_ok=True)
+        with open(os.path.join(evdir, "%s.json" % self.prop), "w") as f:
             json.dump(ev, f, indent=1, sort_keys=True, default=str)
         for k, (f, n) in self.known.items():
             print("KNOWN-FINDING: property=%s %s (seen %d times)" % (self.prop, f.get("what"), n))
